@@ -270,6 +270,8 @@ class SessionDriver:
             ev = {"a": "TrainStep"}
         elif name == "SaveLoadFresh":
             ev = self.save_load()
+        elif name == "Clone":
+            ev = self.clone(str(args[0]))
         elif name == "Call":
             ev = self.call(str(args[0]), str(args[1]))
         else:
@@ -316,6 +318,51 @@ class SessionDriver:
         finally:
             m.train(was)
         return outs
+
+    def probe_in_place(self, m):
+        """The probes of `probe`, on a model that keeps being used: every module's mode flag and every weight
+        cache is put back afterwards (train() / eval() are not called: train() empties the weight caches)."""
+        from nflows.transforms.linear import Linear
+
+        flags = [(mod, mod.training) for mod in m.modules()]
+        caches = [(mod, (mod.cache.weight, mod.cache.inverse, mod.cache.logabsdet)) for mod in m.modules() if isinstance(mod, Linear)]
+        for mod, _ in flags:
+            mod.training = False
+        try:
+            return self.probe(m, drop_caches=False)
+        finally:
+            for mod, f in flags:
+                mod.training = f
+            for mod, (w, i, l) in caches:
+                mod.cache.weight, mod.cache.inverse, mod.cache.logabsdet = w, i, l
+
+    def clone(self, how):
+        import copy
+        import io
+
+        torch = self.torch
+        m = self.m
+        try:
+            if how == "deepcopy":
+                m2 = copy.deepcopy(m)
+            else:
+                buf = io.BytesIO()
+                torch.save(m, buf)
+                buf.seek(0)
+                m2 = torch.load(buf, weights_only=False)
+        except Exception as ex:  # noqa  (zoo constructors close over local functions: not picklable)
+            return {"a": "Clone", "how": how, "same": True, "modesSame": True, "stateSame": True, "error": repr(ex)[:120] or "error"}
+        modes = [mod.training for mod in m.modules()] == [mod.training for mod in m2.modules()]
+        s1, s2 = full_state(m), full_state(m2)
+        state = set(s1) == set(s2) and all(s1[k].shape == s2[k].shape and s1[k].dtype == s2[k].dtype and torch.allclose(s1[k].detach(), s2[k].detach(), rtol=0, atol=0, equal_nan=True) for k in s1)
+        before, after = self.probe_in_place(m), self.probe_in_place(m2)
+        same = len(before) == len(after) and all(((r1 == r2) if isinstance(r1, str) or isinstance(r2, str) else same_result(r1, r2)) for (_, r1), (_, r2) in zip(before, after))
+        self.m = m2
+        self.bn, self.an, self.anp = model_layers(self.m)
+        params = [p for p in self.m.parameters()]
+        self.opt = torch.optim.SGD(params, lr=0.05) if params else None
+        self.last = {}
+        return {"a": "Clone", "how": how, "same": bool(same), "modesSame": bool(modes), "stateSame": bool(state), "error": ""}
 
     def save_load(self):
         torch = self.torch
@@ -392,7 +439,7 @@ def session_task(task):
 def session_graph(view=True):
     res = T.run_tlc(
         "Session",
-        T.cfg(invariants=["TypeOK"], properties=["EvalIsPure", "OnlyDocumentedWriters", "FrozenIsPure", "ModesArePreserved", "InverseNeverInitialises", "InitOnce", "ReloadKeepsInit"], view="View" if view else None),
+        T.cfg(invariants=["TypeOK"], properties=["EvalIsPure", "OnlyDocumentedWriters", "FrozenIsPure", "ModesArePreserved", "InverseNeverInitialises", "InitOnce", "ReloadKeepsInit", "CloneKeepsState"], view="View" if view else None),
         dot=True,
         name="session",
     )
